@@ -306,6 +306,18 @@ impl Database {
 
     /// Runs WAL recovery to restore database to consistent state.
     fn run_recovery(&self) -> DatabaseResult<()> {
+        // Analysis comes first: the transaction ids found in the log must not be handed out again
+        // (the header counters are as old as the last checkpoint), in particular not to the
+        // recovery transaction itself, whose BEGIN record would otherwise be taken for a
+        // second BEGIN of a logged transaction.
+        let analysis = self.pager.write().run_analysis()?;
+        if let Some(max_tid) = analysis.lsn_chains.keys().max().copied() {
+            let mut pager = self.pager.write();
+            if pager.get_last_created_transaction() <= max_tid {
+                pager.set_last_created_transaction(max_tid + 1);
+            }
+        }
+
         let (tx_ctx, logger) = Self::begin_transaction(
             self.coordinator.clone(),
             self.pager.clone(),
@@ -319,9 +331,6 @@ impl Database {
             // the replayed operations in the log as an unfinished transaction of their own.
             logger.mute();
             let mut recuperator = WalRecuperator::new(child, logger.clone());
-
-            // Run analysis INSIDE the closure using the cloned pager
-            let analysis = pager.write().run_analysis().map_err(box_err)?;
 
             // Run recovery through recuperator
             recuperator.run_recovery(&analysis).map_err(box_err)?;
